@@ -106,6 +106,104 @@ pub async fn http(addr: SocketAddr, method: &str, path: &str, headers: &[(String
     Ok(HttpResponse { status, body: out })
 }
 
+/// a long-lived NDJSON response (subscriptions, update feeds): a reader task parses the lines as they come
+pub struct NdjsonStream {
+    pub status: u16,
+    pub headers: Vec<(String, String)>,
+    rx: mpsc::UnboundedReceiver<serde_json::Value>,
+    task: JoinHandle<()>,
+    /// lines that did not parse as JSON
+    pub garbage: std::sync::Arc<std::sync::Mutex<Vec<String>>>,
+    pub closed: std::sync::Arc<std::sync::atomic::AtomicBool>,
+}
+
+impl NdjsonStream {
+    pub fn header(&self, name: &str) -> Option<&str> {
+        self.headers.iter().find(|(k, _)| k.eq_ignore_ascii_case(name)).map(|(_, v)| v.as_str())
+    }
+
+    /// everything received so far
+    pub fn drain(&mut self) -> Vec<serde_json::Value> {
+        let mut out = vec![];
+        while let Ok(v) = self.rx.try_recv() {
+            out.push(v);
+        }
+        out
+    }
+
+    pub async fn next(&mut self, wait: Duration) -> Option<serde_json::Value> {
+        tokio::time::timeout(wait, self.rx.recv()).await.ok().flatten()
+    }
+
+    pub fn is_closed(&self) -> bool {
+        self.closed.load(std::sync::atomic::Ordering::SeqCst)
+    }
+}
+
+impl Drop for NdjsonStream {
+    fn drop(&mut self) {
+        self.task.abort();
+    }
+}
+
+pub async fn open_stream(addr: SocketAddr, method: &str, path: &str, headers: &[(String, String)], body: Option<Vec<u8>>) -> SimResult<NdjsonStream> {
+    let client: Client<_, Full<Bytes>> = Client::builder(TokioExecutor::new()).build_http();
+    let mut req = hyper::Request::builder().method(method).uri(format!("http://{addr}{path}"));
+    for (k, v) in headers {
+        req = req.header(k.as_str(), v.as_str());
+    }
+    let req = req.body(Full::new(Bytes::from(body.unwrap_or_default()))).map_err(|e| SimErr(format!("request: {e}")))?;
+    let res = tokio::time::timeout(Duration::from_secs(30), client.request(req)).await.map_err(|_| SimErr("http request timed out".into()))?.map_err(|e| SimErr(format!("http: {e}")))?;
+    let status = res.status().as_u16();
+    let headers = res.headers().iter().map(|(k, v)| (k.to_string(), v.to_str().unwrap_or("").to_string())).collect();
+    let (tx, rx) = mpsc::unbounded_channel();
+    let garbage = std::sync::Arc::new(std::sync::Mutex::new(vec![]));
+    let closed = std::sync::Arc::new(std::sync::atomic::AtomicBool::new(false));
+    let task = tokio::spawn({
+        let garbage = garbage.clone();
+        let closed = closed.clone();
+        async move {
+            let mut body = res.into_body();
+            let mut buf: Vec<u8> = vec![];
+            loop {
+                match body.frame().await {
+                    Some(Ok(frame)) => {
+                        if let Some(d) = frame.data_ref() {
+                            buf.extend_from_slice(d);
+                            while let Some(pos) = buf.iter().position(|b| *b == b'\n') {
+                                let line: Vec<u8> = buf.drain(..=pos).collect();
+                                let line = &line[..line.len() - 1];
+                                if line.is_empty() {
+                                    continue;
+                                }
+                                match serde_json::from_slice::<serde_json::Value>(line) {
+                                    Ok(v) => {
+                                        if tx.send(v).is_err() {
+                                            return;
+                                        }
+                                    }
+                                    Err(_) => garbage.lock().unwrap().push(String::from_utf8_lossy(line).to_string()),
+                                }
+                            }
+                        }
+                    }
+                    _ => break,
+                }
+            }
+            if !buf.is_empty() {
+                match serde_json::from_slice::<serde_json::Value>(&buf) {
+                    Ok(v) => {
+                        let _ = tx.send(v);
+                    }
+                    Err(_) => garbage.lock().unwrap().push(String::from_utf8_lossy(&buf).to_string()),
+                }
+            }
+            closed.store(true, std::sync::atomic::Ordering::SeqCst);
+        }
+    });
+    Ok(NdjsonStream { status, headers, rx, task, garbage, closed })
+}
+
 /// digest of everything a "read" endpoint must not change: user tables, cr-sqlite's own tables and
 /// corrosion's bookkeeping tables
 pub fn db_digest(path: &Path) -> SimResult<String> {
